@@ -19,13 +19,25 @@ type powVals struct {
 	addrs  []starknet.Address
 	powers []uint
 	total  uint
+	// from height 1 on (0 = same as height 0): the validator set may change between heights
+	powers1 []uint
+	total1  uint
 }
 
-func (v *powVals) TotalVotingPower(types.Height) types.VotingPower { return types.VotingPower(v.total) }
-func (v *powVals) ValidatorVotingPower(_ types.Height, a *starknet.Address) types.VotingPower {
+func (v *powVals) TotalVotingPower(h types.Height) types.VotingPower {
+	if h >= 1 && v.total1 != 0 {
+		return types.VotingPower(v.total1)
+	}
+	return types.VotingPower(v.total)
+}
+func (v *powVals) ValidatorVotingPower(h types.Height, a *starknet.Address) types.VotingPower {
+	pw := v.powers
+	if h >= 1 && v.total1 != 0 {
+		pw = v.powers1
+	}
 	for i := range v.addrs {
 		if v.addrs[i] == *a {
-			return types.VotingPower(v.powers[i])
+			return types.VotingPower(pw[i])
 		}
 	}
 	return 0
@@ -100,6 +112,33 @@ func thresholds(r *ev.Run) {
 			// future height
 			vc.AddPrecommit(&starknet.Precommit{MessageHeader: hdr(1, 0, X), ID: &A})
 			chk("future-height-precommit-quorum", vc.HasFuturePrecommitQuorum(1, 0, &A), wantQ)
+			// the next height (entered through StartNewHeight, not through New): same thresholds for the same total, and
+			// the thresholds of the NEW total when the validator set changes (total N+1, X keeps x)
+			for _, grow := range []uint{0, 1} {
+				N1 := N + grow
+				var q1, f1 uint
+				for q1 = 0; 3*q1 < 2*N1; q1++ {
+				}
+				for f1 = 0; 3*(f1+1) < N1; f1++ {
+				}
+				vals1 := &powVals{addrs: []starknet.Address{X, Y}, powers: []uint{x, N - x}, total: N}
+				if grow > 0 {
+					vals1.powers1, vals1.total1 = []uint{x, N1 - x}, N1
+				}
+				vc1 := votecounter.New[starknet.Value](vals1, 0)
+				vc1.AddPrecommit(&starknet.Precommit{MessageHeader: hdr(1, 0, X), ID: &A}) // buffered for the next height
+				vc1.StartNewHeight()
+				tag := fmt.Sprintf(" [height entered by StartNewHeight, total %+d]", int(grow))
+				wq1, wnf1 := x >= q1, x > f1
+				chk("buffered-precommit-quorum"+tag, vc1.HasQuorumForVote(0, votecounter.Precommit, &A), wq1)
+				chk("add-prevote-accepted"+tag, vc1.AddPrevote(&starknet.Prevote{MessageHeader: hdr(1, 0, X), ID: &A}), true)
+				chk("prevote-quorum-for-value"+tag, vc1.HasQuorumForVote(0, votecounter.Prevote, &A), wq1)
+				chk("prevote-quorum-any"+tag, vc1.HasQuorumForAny(0, votecounter.Prevote), wq1)
+				vc1.AddPrevote(&starknet.Prevote{MessageHeader: hdr(1, 3, X), ID: &A})
+				chk("f+1-future-round"+tag, vc1.HasNonFaultyFutureMessage(3), wnf1)
+				vc1.AddPrevote(&starknet.Prevote{MessageHeader: hdr(1, 0, Y), ID: nil})
+				chk("nil-quorum"+tag, vc1.HasQuorumForVote(0, votecounter.Prevote, nil), N1-x >= q1)
+			}
 			lp++
 			if wantQ {
 				lq++
